@@ -48,6 +48,7 @@ type FuncReport struct {
 }
 
 type Exec struct {
+	loopOrdOf map[*ssa.BasicBlock]int // loops with a `completes` clause
 	objectHavoc bool // externalArgsFrame is computing the frame of one call being executed (not a static summary)
 	lockSnap map[*State]map[string]*State // unused placeholder
 	escClosures map[*ssa.Function][]*ssa.Function // closures handed to external code, per function under verification
@@ -1251,6 +1252,15 @@ func (x *Exec) atLoopHeader(st *State, h *ssa.BasicBlock, ord int) bool {
 		return true
 	}
 	check("inv_entry")
+	if lc != nil && lc.Completes != "" {
+		// `completes`: registered here (trivially true) so that the claim exists on every run; a call inside the loop body
+		// of a function that does not return adds a failing query under its path condition (see applyContract)
+		if x.loopOrdOf == nil {
+			x.loopOrdOf = map[*ssa.BasicBlock]int{}
+		}
+		x.loopOrdOf[h] = ord
+		x.oblige(st, "completes", fmt.Sprintf("loop%d.%s", ord, lc.Completes), True, "no iteration of the loop ends the process")
+	}
 	if st.loopEntry == nil {
 		st.loopEntry = map[*ssa.BasicBlock]*State{}
 	}
